@@ -121,7 +121,12 @@ NoExistenceLeak == (IsRead /\ resp.surf \in ListingSurfs) =>
    Attachments are stored per DOCUMENT (the attachment map of the revision written last), and a version vector names
    the document's last write: what the current revision's attachment / CV address is therefore only pinned down when the
    current revision is also the one written last (always, unless a losing branch was written afterwards). *)
-CurLive(u)  == ~Del(cur) /\ MayRead(u, cur)
+(* "a document that is in one of the user's channels": the wildcard stands for every channel, but a document that is in
+   no channel at all is in none of them - the availability clause does not speak about it (the design still intends a
+   wildcard holder to read it: CurReadable, used by Ideal) *)
+InUsersChannel(u, id) == Rev(id).chans \cap UserChans(u) # {} \/ (HasStar(u) /\ Rev(id).chans # {})
+CurLive(u)     == ~Del(cur) /\ InUsersChannel(u, cur)
+CurReadable(u) == ~Del(cur) /\ MayRead(u, cur)
 LastWritten == cfg.revs[Len(cfg.revs)].id
 CurIsLast   == cur = LastWritten
 Available == IsRead => LET u == resp.u  v == resp.v IN
@@ -164,11 +169,14 @@ SeenByFeed(u, chs) ==   \* some revision that was current is in a channel u gets
      IF chs = {} THEN HasStar(u) \/ c \cap UserChans(u) # {}
      ELSE c \cap chs \cap (IF HasStar(u) THEN chs ELSE UserChans(u)) # {}
 
+(* replication protocol v3 does not announce plain removals (revocation messages replace them); tombstones are announced *)
+SeenByReplication(u) == SeenByFeed(u, {}) /\ (MayRead(u, cur) \/ Del(cur))
+
 (* the response the design intends *)
 Ideal(rd) ==
   LET u == rd.u IN
   CASE rd.surf = "GetDoc" ->
-         IF rd.rev = "" THEN (IF CurLive(u) THEN Mk(rd, "ok", {cur}, IF rd.v.atts THEN {cur} ELSE {}, {Ent(u, cur)}, FALSE) ELSE ErrResp(rd))
+         IF rd.rev = "" THEN (IF CurReadable(u) THEN Mk(rd, "ok", {cur}, IF rd.v.atts THEN {cur} ELSE {}, {Ent(u, cur)}, FALSE) ELSE ErrResp(rd))
          ELSE IF rd.v.byCV /\ rd.rev # LastWritten THEN ErrResp(rd)  \* a superseded version vector is not addressable (no delta sync)
          ELSE LET e == Ent(u, IF rd.v.byCV THEN cur ELSE rd.rev) IN   \* the version vector of the last write names the current revision
               Mk(rd, "ok", Bodies({e}), IF rd.v.atts THEN Atts(Bodies({e})) ELSE {}, {e}, FALSE)
@@ -177,50 +185,59 @@ Ideal(rd) ==
     [] rd.surf = "BulkGet" ->
          LET ents == {Ent(u, id) : id \in RevIds} IN Mk(rd, "ok", Bodies(ents), IF rd.v.atts THEN Atts(Bodies(ents)) ELSE {}, ents, FALSE)
     [] rd.surf = "AllDocs" ->
-         IF CurLive(u) THEN Mk(rd, "ok", IF rd.v.body THEN {cur} ELSE {}, {}, IF rd.v.body THEN {Ent(u, cur)} ELSE {}, TRUE)
+         IF CurReadable(u) THEN Mk(rd, "ok", IF rd.v.body THEN {cur} ELSE {}, {}, IF rd.v.body THEN {Ent(u, cur)} ELSE {}, TRUE)
          ELSE Mk(rd, "ok", {}, {}, {}, FALSE)
     [] rd.surf = "Changes" ->
          LET chs == IF rd.v.filter = "bychannel" THEN {"A", "B", Pub} ELSE {}
-             listed == IF rd.v.active THEN CurLive(u) /\ SeenByFeed(u, chs) ELSE SeenByFeed(u, chs) IN
-         IF listed THEN Mk(rd, "ok", IF rd.v.body /\ CurLive(u) THEN {cur} ELSE {}, {}, IF rd.v.body THEN {Ent(u, cur)} ELSE {}, TRUE)
+             listed == IF rd.v.active THEN CurReadable(u) /\ SeenByFeed(u, chs) ELSE SeenByFeed(u, chs) IN
+         IF listed THEN Mk(rd, "ok", IF rd.v.body /\ CurReadable(u) THEN {cur} ELSE {}, {}, IF rd.v.body THEN {Ent(u, cur)} ELSE {}, TRUE)
          ELSE Mk(rd, "ok", {}, {}, {}, FALSE)
     [] rd.surf = "GetAttachment" ->
          LET id == IF rd.rev = "" THEN cur ELSE rd.rev IN
          IF ~Del(id) /\ MayRead(u, id) THEN Mk(rd, "ok", {}, IF rd.v.meta THEN {} ELSE {id}, {}, FALSE) ELSE ErrResp(rd)
-    [] rd.surf = "BlipChanges" -> Mk(rd, "ok", {}, {}, {}, SeenByFeed(u, {}))
+    [] rd.surf = "BlipChanges" -> Mk(rd, "ok", {}, {}, {}, SeenByReplication(u))
     [] rd.surf = "BlipRev" ->
-         LET ents == IF SeenByFeed(u, {}) THEN {Ent(u, cur)} ELSE {} IN Mk(rd, "ok", Bodies(ents), {}, ents, FALSE)
+         LET ents == IF SeenByReplication(u) THEN {Ent(u, cur)} ELSE {} IN Mk(rd, "ok", Bodies(ents), {}, ents, FALSE)
     [] rd.surf = "BlipGetAttachment" ->   \* only the attachments of a revision that is being delivered to this connection
-         IF rd.v.during /\ rd.rev = cur /\ CurLive(u) THEN Mk(rd, "ok", {}, {cur}, {}, FALSE) ELSE ErrResp(rd)
+         IF rd.v.during /\ rd.rev = cur /\ CurReadable(u) THEN Mk(rd, "ok", {}, {cur}, {}, FALSE) ELSE ErrResp(rd)
     [] rd.surf = "BlipGetRev" ->
-         IF CurLive(u) THEN Mk(rd, "ok", {cur}, {}, {Ent(u, cur)}, FALSE) ELSE ErrResp(rd)
+         IF CurReadable(u) THEN Mk(rd, "ok", {cur}, {}, {Ent(u, cur)}, FALSE) ELSE ErrResp(rd)
 
 (* envelope of a real response (pass C).  The gateway may be STRICTER than the design for revisions that are not
    current (e.g. a losing branch whose channels were not kept, a superseded body whose backup is gone): stubs or
-   errors where Ideal has a body are inside the envelope.  Two NAMED DEVIATIONS of the code from the design are part
+   errors where Ideal has a body are inside the envelope.  Three NAMED DEVIATIONS of the code from the design are part
    of the envelope (they are what the code does; whether they break the property is decided by pass P, not here):
      DocLevelAtt   - attachments are kept per document: whoever is served the current revision's body gets the
                      attachment of the revision written LAST, also when that is a losing branch (db/crud.go
-                     storeOldBodyInRevTreeAndUpdateCurrent: doc.SetAttachments(newDoc.Attachments()));
+                     storeOldBodyInRevTreeAndUpdateCurrent: doc.SetAttachments(newDoc.Attachments())), and a revision
+                     demoted by a sibling is archived with the sibling's attachment stamped into it;
      BackupFiledUnderWinner - when a revision is superseded its body is archived together with the channels of the
                      revision that was CURRENT at that moment (db/crud.go documentUpdateFunc: oldChannels :=
                      doc.getCurrentChannels()), which is another revision when a losing branch is extended. *)
-DocLevelAtt(u) == IF MayRead(u, cur) /\ ~Del(LastWritten) THEN {LastWritten} ELSE {}
+HasFork == \E a, b \in Revs : a.id # b.id /\ a.parent = b.parent /\ a.parent # ""
+DocLevelAtt(u) ==   \* in a conflicting tree, whose attachment a readable revision is served with is not pinned down
+  IF Readable(u) = {} THEN {} ELSE IF HasFork THEN {y \in RevIds : ~Del(y)} ELSE {}
 FiledUnder(id) ==   \* channels the archived body of a superseded revision is filed under
   LET ks == {k \in 2..Len(cfg.revs) : cfg.revs[k].parent = id} IN
   IF ks = {} THEN Rev(id).chans
   ELSE LET k == CHOOSE x \in ks : \A y \in ks : x <= y IN Rev(WinnerIn(SubSeq(cfg.revs, 1, k - 1))).chans
 BackupFiledUnderWinner(u) == {id \in RevIds \ Leaves : FiledUnder(id) \cap UserChans(u) # {}}
+(*   InheritedStarNoChannel - a document that is in no channel is readable only through the wildcard; the code paths
+                     disagree on whether a wildcard INHERITED from a role counts (auth/role.go authorizeAnyChannel looks at
+                     the principal's own channels only; db/changes.go createChangesEntry likewise), so for such a requester
+                     the envelope allows denial as well as delivery. *)
+Weak(u) == Rev(cur).chans = {} /\ Star \notin cfg.users[u].direct
 Conforms(rd, r) ==
   LET i  == Ideal(rd)
-      bk == BackupFiledUnderWinner(rd.u) IN
+      bk == BackupFiledUnderWinner(rd.u)
+      w  == Weak(rd.u) IN
   /\ r.surf = rd.surf /\ r.u = rd.u /\ r.rev = rd.rev
-  /\ r.mk \subseteq i.mk \cup bk
+  /\ r.mk \subseteq i.mk \cup bk \cup (IF rd.surf = "Changes" THEN Readable(rd.u) ELSE {})   \* a rebuilt feed may list an older revision too (C01's business)
   /\ r.am \subseteq i.am \cup DocLevelAtt(rd.u) \cup bk
-  /\ Bodies(r.ents) \subseteq Bodies(i.ents) \cup bk
-  /\ (cur \in i.mk => cur \in r.mk) /\ ((cur \in i.am /\ CurIsLast) => cur \in r.am)
-  /\ r.listed = i.listed
-  /\ (rd.surf \in {"GetDoc", "GetAttachment"} /\ rd.rev = "" /\ (rd.surf = "GetAttachment" => CurIsLast)) => r.st = i.st
+  /\ Bodies(r.ents) \subseteq Bodies(i.ents) \cup bk \cup (IF rd.surf = "Changes" THEN Readable(rd.u) ELSE {})
+  /\ (~w /\ ~Del(cur)) => ((cur \in i.mk => cur \in r.mk) /\ ((cur \in i.am /\ CurIsLast) => cur \in r.am))
+  /\ IF w THEN r.listed => i.listed ELSE r.listed = i.listed
+  /\ (~w /\ rd.surf \in {"GetDoc", "GetAttachment"} /\ rd.rev = "" /\ (rd.surf = "GetAttachment" => CurIsLast)) => r.st = i.st
 
 -----------------------------------------------------------------------------
 (* actions *)
